@@ -655,6 +655,17 @@ func (tx *Tx) findRangeOnDisk(fID, rootOff int64, start, end, newStart, newEnd [
 }
 
 func (tx *Tx) prefixScanByHintBPTSparseIdx(bucket string, prefix []byte, offsetNum int, limitNum int) (es Entries, off int, err error) {
+	if offsetNum != 0 || limitNum != ScanNoLimit {
+		// Page over the complete result (newest version of each key, deleted and expired
+		// keys dropped): applying offset and limit per segment returned tombstones and
+		// skipped or repeated live keys.
+		all, _, err := tx.prefixScanByHintBPTSparseIdx(bucket, prefix, 0, ScanNoLimit)
+		if err != nil {
+			return nil, 0, err
+		}
+		return pageOfEntries(all, offsetNum, limitNum, ErrPrefixScan)
+	}
+
 	newPrefix := getNewKey(bucket, prefix)
 	records, voff, err := tx.db.ActiveBPTreeIdx.PrefixScan(newPrefix, offsetNum, limitNum)
 	if err == nil && records != nil {
@@ -702,6 +713,15 @@ func (tx *Tx) prefixScanByHintBPTSparseIdx(bucket string, prefix []byte, offsetN
 }
 
 func (tx *Tx) prefixSearchScanByHintBPTSparseIdx(bucket string, prefix []byte, reg string, offsetNum int, limitNum int) (es Entries, off int, err error) {
+	if offsetNum != 0 || limitNum != ScanNoLimit {
+		// see prefixScanByHintBPTSparseIdx
+		all, _, err := tx.prefixSearchScanByHintBPTSparseIdx(bucket, prefix, reg, 0, ScanNoLimit)
+		if err != nil {
+			return nil, 0, err
+		}
+		return pageOfEntries(all, offsetNum, limitNum, ErrPrefixSearchScan)
+	}
+
 	newPrefix := getNewKey(bucket, prefix)
 	records, voff, err := tx.db.ActiveBPTreeIdx.PrefixSearchScan(newPrefix, reg, offsetNum, limitNum)
 	if err == nil && records != nil {
@@ -761,11 +781,14 @@ func (tx *Tx) PrefixScan(bucket string, prefix []byte, offsetNum int, limitNum i
 	}
 
 	if idx, ok := tx.db.BPTreeIdx[bucket]; ok {
-		records, voff, err := idx.PrefixScan(prefix, offsetNum, limitNum)
+		// walk all records under the prefix and page over the live ones: applying offset
+		// and limit during the walk counted deleted and expired keys as well
+		records, voff, err := idx.PrefixScan(prefix, 0, ScanNoLimit)
 		if err != nil {
 			off = voff
 			return nil, off, ErrPrefixScan
 		}
+		records, voff = pageOfLiveRecords(records, offsetNum, limitNum)
 
 		es, err = tx.getHintIdxDataItemsWrapper(records, limitNum, es, PrefixScan)
 		if err != nil {
@@ -797,11 +820,12 @@ func (tx *Tx) PrefixSearchScan(bucket string, prefix []byte, reg string, offsetN
 	}
 
 	if idx, ok := tx.db.BPTreeIdx[bucket]; ok {
-		records, voff, err := idx.PrefixSearchScan(prefix, reg, offsetNum, limitNum)
+		records, voff, err := idx.PrefixSearchScan(prefix, reg, 0, ScanNoLimit)
 		if err != nil {
 			off = voff
 			return nil, off, ErrPrefixSearchScan
 		}
+		records, voff = pageOfLiveRecords(records, offsetNum, limitNum)
 
 		es, err = tx.getHintIdxDataItemsWrapper(records, limitNum, es, PrefixSearchScan)
 		if err != nil {
@@ -818,6 +842,53 @@ func (tx *Tx) PrefixSearchScan(bucket string, prefix []byte, reg string, offsetN
 	}
 
 	return
+}
+
+// pageOfLiveRecords drops deleted and expired records and then applies offset and
+// limit, so that paging counts live keys only.
+func pageOfLiveRecords(records Records, offsetNum, limitNum int) (Records, int) {
+	live := make(Records, 0, len(records))
+	for _, r := range records {
+		if r.H.meta.Flag == DataDeleteFlag || r.IsExpired() {
+			continue
+		}
+		live = append(live, r)
+	}
+
+	if offsetNum < 0 {
+		offsetNum = 0
+	}
+	if offsetNum > len(live) {
+		offsetNum = len(live)
+	}
+	live = live[offsetNum:]
+
+	if limitNum > 0 && len(live) > limitNum {
+		live = live[:limitNum]
+	}
+
+	return live, offsetNum
+}
+
+// pageOfEntries applies offset and limit to a complete scan result.
+func pageOfEntries(es Entries, offsetNum, limitNum int, errNotFound error) (Entries, int, error) {
+	if offsetNum < 0 {
+		offsetNum = 0
+	}
+	if offsetNum > len(es) {
+		offsetNum = len(es)
+	}
+	es = es[offsetNum:]
+
+	if limitNum >= 0 && len(es) > limitNum {
+		es = es[:limitNum]
+	}
+
+	if len(es) == 0 {
+		return nil, offsetNum, errNotFound
+	}
+
+	return es, offsetNum, nil
 }
 
 // Delete removes a key from the bucket at given bucket and key.
